@@ -435,6 +435,14 @@ class FromArray(IO):
 
         return self._with_chunks(chunks)
 
+    def _derived_token(self, name):
+        # A read named by the user carries a per-call token (two sources may be
+        # given the same name); the reads rebuilt from it must keep telling the
+        # sources apart, since their names are derived from that name alone.
+        if self.operand("_name_is_exact"):
+            return (FromArray, name, self.deterministic_token)
+        return None
+
     def _with_chunks(self, chunks):
         name = f"{self._name}-rechunk-{tokenize(self.chunks, chunks)}"
         return FromArray(
@@ -449,6 +457,7 @@ class FromArray(IO):
             _name_override=name,
             _name_is_exact=True,
             _region=self.operand("_region"),
+            _determ_token=self._derived_token(name),
         )
 
     def _accept_slice(self, slice_expr):
@@ -535,16 +544,20 @@ class FromArray(IO):
             _name_override=name,
             _name_is_exact=True,
             _region=new_region,
+            _determ_token=self._derived_token(name),
         )
 
         if has_integers:
             extract_index = tuple(0 if isinstance(idx, Integral) else slice(None) for idx in full_index)
             extract_token = "-".join(f"i{idx}" if isinstance(idx, Integral) else "s" for idx in extract_index)
+            extract_determ = f"{new_io._name}-extract-{extract_token}"
+            if self.operand("_name_is_exact"):
+                extract_determ = tokenize(extract_determ, self.deterministic_token)
             return SliceSlicesIntegers(
                 new_io,
                 extract_index,
                 False,
-                _determ_token=f"{new_io._name}-extract-{extract_token}",
+                _determ_token=extract_determ,
             )
 
         return new_io
